@@ -1,5 +1,4 @@
-import TF.Proofs.NttModel
-import TF.Proofs.NttTable
+import TF.Proofs.NttFinal
 /-!
 # C06 — NTT is the discrete Fourier transform over the field; INTT is its inverse
 
@@ -9,13 +8,20 @@ Property theorems only (helper lemmas live in `TF/Proofs/Ntt*.lean`).
   re-checked against what the source says now.
 * `TF.Model.Ntt.*` is the hand-written executable model of `ntt.rs` (swap loop + one `Array.ofFn` pass per butterfly
   stage), generic over a record of ring operations `Ops σ α`; it is tied to the Rust code by the correspondence family
-  `ntt` (base field and extension field).  `ringOps R inv inv0` instantiates it with the operations of an arbitrary
-  commutative ring `R`.
+  `ntt` (base field and extension field).  Three instances occur:
+  `ringOps R inv inv0` — the operations of an arbitrary commutative ring `R` (the general theorems);
+  `bOps` — canonical values `< P` with the integer arithmetic of `TF/Spec/Field.lean` (what the driver runs for `b`);
+  `xOps` — triples of canonical values (what the driver runs for `x`).
+  `Nat.cast : bOps → ZMod P` and the coordinate projections `xOps → bOps` commute with all operations, so the general
+  theorems transfer to the executable instances (`TF/Proofs/NttHom.lean`, `NttField.lean`).
 
-Notation: `toFn x i` is `x[i]` (0 outside), `dft n ω f i = Σ_{j<n} f j · ω^(j·i)`.
+Notation: `toFn x i` is `x[i]` (0 outside); `zvec x i` is `x[i]` read in `ZMod P`;
+`dft n ω f i = Σ_{j<n} f j · ω^(j·i)`; `bitrev L i` reverses the low `L` bits of `i`; `none` is a panic.
 -/
 namespace TF.C06
-open TF.Gen TF.Model.Ntt TF.NttFn TF.NttProofs
+open TF.Gen TF.Model.Ntt TF.NttFn TF.NttProofs TF.Spec
+
+/-! ## the root table -/
 
 /-- Every entry `(n, r)` of the translated root table: `n = 0, r = 1`, or `n = 2^k` with `k ≤ 32`, `r` canonical,
     `r = 1` for `n = 1` and `r^(n/2) ≡ -1 (mod P)` for `n ≥ 2` (whole table decided by the kernel). -/
@@ -36,23 +42,169 @@ theorem primitive_roots_order (n r : Nat) (h : (n, r) ∈ PRIMITIVE_ROOTS) (hn :
       exact orderOf_of_half_pow _ k (by omega) (cast_pow_eq_neg_one r _ hr)
 example : (2, 18446744069414584320) ∈ PRIMITIVE_ROOTS ∧ 0 < 2 := by decide
 
-/-- `primitive_root_of_unity(n)` is `Some` exactly for `n = 0` and the powers of two up to `2^32`,
-    and what it returns is the table entry. -/
+/-- `primitive_root_of_unity(2^L)` is `Some` for every `L ≤ 32` (and for 0), and only table entries are returned. -/
 theorem primitive_root_defined (L : Nat) (hL : L ≤ 32) :
     ∃ r, primitiveRoot (2^L) = some r ∧ 0 < r ∧ r < P ∧ (if L = 0 then r = 1 else r^(2^(L-1)) % P = P - 1) :=
   primitiveRoot_pow2 L hL
 theorem primitive_root_is_entry (n r : Nat) (h : primitiveRoot n = some r) : (n, r) ∈ PRIMITIVE_ROOTS :=
   primitiveRoot_mem n r h
-example : primitiveRoot 8 = some 18446744069397807105 := by decide
+example : primitiveRoot 8 = some 18446744069397807105 ∧ primitiveRoot 0 = some 1 ∧ primitiveRoot 3 = none := by decide
 
-/-- **NTT = DFT.**  For every `L`, every commutative ring `R`, every `ω` with `ω^(2^(L-1)) = -1` and every vector `x`
-    of length `2^L`: `ntt_unchecked` (bit-reversal swap loop followed by `L` butterfly stages) does not panic and
-    returns `y` with `y[i] = Σ_j x[j]·ω^(j·i)`. -/
+/-! ## the transforms over an arbitrary commutative ring -/
+
+/-- **NTT = DFT.**  For every `L`, every commutative ring `R`, every `ω` with `ω^(2^(L-1)) = -1` (for `L ≥ 1`) and
+    every vector `x` of length `2^L`: `ntt_unchecked` (bit-reversal swap loop followed by `L` butterfly stages) does
+    not panic and returns `y` with `y[i] = Σ_j x[j]·ω^(j·i)`. -/
 theorem ntt_unchecked_eq_dft {R : Type} [CommRing R] (inv : R → Option R) (inv0 : R → R)
-    (L : Nat) (ω : R) (hω : ω^(2^(L-1)) = -1) (x : Array R) (hx : x.size = 2^L) :
+    (L : Nat) (ω : R) (hω : 0 < L → ω^(2^(L-1)) = -1) (x : Array R) (hx : x.size = 2^L) :
     ∃ y, nttUnchecked (ringOps R inv inv0) x ω L = some y ∧ y.size = 2^L ∧
       ∀ i, i < 2^L → toFn y i = dft (2^L) ω (toFn x) i :=
   nttUnchecked_eq_dft inv inv0 L ω hω x hx
-example : ((-1 : ℤ))^(2^(1-1)) = -1 ∧ (#[3, 5] : Array ℤ).size = 2^1 := by decide
+example : (0 < 1 → ((-1 : ℤ))^(2^(1-1)) = -1) ∧ (#[3, 5] : Array ℤ).size = 2^1 := by decide
+
+/-- `ntt` with any root table: for a length `2^L`, `L ≤ 31`, it looks the root up and returns the DFT. -/
+theorem ntt_eq_dft {R : Type} [CommRing R] (inv : R → Option R) (inv0 : R → R) (root : Nat → Option R)
+    (L : Nat) (hL : L ≤ 31) (ω : R) (hr : root (2^L) = some ω) (hω : 0 < L → ω^(2^(L-1)) = -1)
+    (x : Array R) (hx : x.size = 2^L) :
+    ∃ y, ntt (ringOps R inv inv0) root x = some y ∧ y.size = 2^L ∧
+      ∀ i, i < 2^L → toFn y i = dft (2^L) ω (toFn x) i :=
+  ntt_eq_dft_model inv inv0 root L hL ω hr hω x hx
+example : (2 : ℕ) ≤ 31 ∧ (0 < 2 → ((2 : ZMod 5))^(2^(2-1)) = -1) := by decide
+
+/-- `intt` is the DFT with the inverse root, scaled by `inverse_or_zero(n)`. -/
+theorem intt_eq_inverse_dft {R : Type} [CommRing R] (inv : R → Option R) (inv0 : R → R) (root : Nat → Option R)
+    (L : Nat) (hL : L ≤ 31) (ω ωi : R) (hr : root (2^L) = some ω) (hi : inv ω = some ωi) (hinv : ωi * ω = 1)
+    (hω : 0 < L → ω^(2^(L-1)) = -1) (x : Array R) (hx : x.size = 2^L) :
+    ∃ y, intt (ringOps R inv inv0) root x = some y ∧ y.size = 2^L ∧
+      ∀ i, i < 2^L → toFn y i = inv0 ((2^L : ℕ) : R) * dft (2^L) ωi (toFn x) i :=
+  intt_eq_dft_model inv inv0 root L hL ω ωi hr hi hinv hω x hx
+example : (3 : ZMod 5) * 2 = 1 := by decide
+
+/-- **INTT inverts NTT** over every commutative ring in which `ω` and `n` are invertible (orthogonality of the powers
+    of `ω` needs only `ω^(n/2) = -1`, no field or domain hypothesis). -/
+theorem intt_ntt {R : Type} [CommRing R] (inv : R → Option R) (inv0 : R → R) (root : Nat → Option R)
+    (L : Nat) (hL : L ≤ 31) (ω ωi : R) (hr : root (2^L) = some ω) (hi : inv ω = some ωi) (hinv : ωi * ω = 1)
+    (hn : inv0 ((2^L : ℕ) : R) * ((2^L : ℕ) : R) = 1) (hω : 0 < L → ω^(2^(L-1)) = -1)
+    (x : Array R) (hx : x.size = 2^L) :
+    ∃ y, ntt (ringOps R inv inv0) root x = some y ∧ intt (ringOps R inv inv0) root y = some x :=
+  intt_ntt_model inv inv0 root L hL ω ωi hr hi hinv hn hω x hx
+example : (3 : ZMod 5) * 2 = 1 ∧ (4 : ZMod 5) * ((2^2 : ℕ) : ZMod 5) = 1 ∧ ((2 : ZMod 5))^(2^(2-1)) = -1 := by decide
+
+/-- **NTT inverts INTT**, same generality. -/
+theorem ntt_intt {R : Type} [CommRing R] (inv : R → Option R) (inv0 : R → R) (root : Nat → Option R)
+    (L : Nat) (hL : L ≤ 31) (ω ωi : R) (hr : root (2^L) = some ω) (hi : inv ω = some ωi) (hinv : ωi * ω = 1)
+    (hn : inv0 ((2^L : ℕ) : R) * ((2^L : ℕ) : R) = 1) (hω : 0 < L → ω^(2^(L-1)) = -1)
+    (x : Array R) (hx : x.size = 2^L) :
+    ∃ y, intt (ringOps R inv inv0) root x = some y ∧ ntt (ringOps R inv inv0) root y = some x :=
+  ntt_intt_model inv inv0 root L hL ω ωi hr hi hinv hn hω x hx
+example : (3 : ZMod 5) * 2 = 1 ∧ (4 : ZMod 5) * ((2^2 : ℕ) : ZMod 5) = 1 := by decide
+
+/-- `ntt_noswap` returns the same DFT in bit-reversed order: `y[i] = DFT(x)[bitrev i]`. -/
+theorem ntt_noswap_eq_dft_bitreversed {R : Type} [CommRing R] (inv : R → Option R) (inv0 : R → R)
+    (root : Nat → Option R) (L : Nat) (ω : R) (hr : root (2^L) = some ω) (hω : 0 < L → ω^(2^(L-1)) = -1)
+    (x : Array R) (hx : x.size = 2^L) :
+    ∃ y, nttNoswap (ringOps R inv inv0) root x = some y ∧ y.size = 2^L ∧
+      ∀ i, i < 2^L → toFn y i = dft (2^L) ω (toFn x) (bitrev L i) :=
+  nttNoswap_eq_dft inv inv0 root L ω hr hω x hx
+example : bitrev 3 1 = 4 ∧ bitrev 3 6 = 3 := by decide
+
+/-- `intt_noswap ∘ ntt_noswap = n · id` (the documented scaling; `unscale` removes the factor). -/
+theorem intt_noswap_ntt_noswap {R : Type} [CommRing R] (inv : R → Option R) (inv0 : R → R)
+    (root : Nat → Option R) (L : Nat) (ω ωi : R) (hr : root (2^L) = some ω) (hi : inv ω = some ωi)
+    (hinv : ωi * ω = 1) (hω : 0 < L → ω^(2^(L-1)) = -1) (x : Array R) (hx : x.size = 2^L) :
+    ∃ y z, nttNoswap (ringOps R inv inv0) root x = some y ∧ inttNoswap (ringOps R inv inv0) root y = some z ∧
+      z.size = 2^L ∧ ∀ i, i < 2^L → toFn z i = ((2^L : ℕ) : R) * toFn x i :=
+  inttNoswap_nttNoswap_model inv inv0 root L ω ωi hr hi hinv hω x hx
+example : (3 : ZMod 5) * 2 = 1 := by decide
+
+/-- `bitreverse_order` on a length `2^L` is the bit-reversal permutation (which is an involution). -/
+theorem bitreverse_order_spec {α : Type} (L : Nat) (x : Array α) (hx : x.size = 2^L) :
+    (∃ b, bitreverseOrder x = some b ∧ b.size = 2^L ∧ ∀ i, i < 2^L → b[i]? = x[bitrev L i]?) ∧
+    (∀ i, i < 2^L → bitrev L i < 2^L ∧ bitrev L (bitrev L i) = i) :=
+  ⟨bitreverseOrder_spec L x hx, fun i hi => ⟨bitrev_lt L i, bitrev_involutive L i hi⟩⟩
+example : bitreverseOrder #[10, 11, 12, 13] = some #[10, 12, 11, 13] := by decide
+
+/-- For any operations: `intt x = unscale (intt_noswap (bitreverse_order x))`, provided `inverse` and
+    `inverse_or_zero` agree on the length (they do whenever `n ≠ 0` in the field). -/
+theorem intt_eq_unscale_intt_noswap_bitreverse {σ α : Type} (ops : Ops σ α) (root : Nat → Option σ)
+    (L : Nat) (hL : L ≤ 31) (ω ωi ninv : σ) (hr : root (2^L) = some ω) (hi : ops.sinv ω = some ωi)
+    (hn : ops.sinv (ops.sofNat (2^L)) = some ninv) (hn0 : ops.sinv0 (ops.sofNat (2^L)) = ninv)
+    (x : Array α) (hx : x.size = 2^L) :
+    ∃ b c, bitreverseOrder x = some b ∧ inttNoswap ops root b = some c ∧ intt ops root x = unscale ops c :=
+  intt_via_noswap ops root L hL ω ωi ninv hr hi hn hn0 x hx
+example : bOps.sinv (bOps.sofNat (2^1)) = some (finv 2) ∧ bOps.sinv0 (bOps.sofNat (2^1)) = finv 2 := by
+  constructor <;> rfl
+
+/-- `ntt` and `intt` panic on every length that is not 0 or a power of two `≤ 2^31` (any operations, any table). -/
+theorem ntt_intt_reject_other_lengths {σ α : Type} (ops : Ops σ α) (root : Nat → Option σ) (x : Array α)
+    (h : ¬ (x.size = 0 ∨ ∃ k, k ≤ 31 ∧ x.size = 2^k)) : ntt ops root x = none ∧ intt ops root x = none :=
+  ntt_rejects ops root x h
+example : ¬ ((#[1, 2, 3] : Array Nat).size = 0 ∨ ∃ k, k ≤ 31 ∧ (#[1, 2, 3] : Array Nat).size = 2^k) := by
+  intro h
+  rcases h with h | ⟨k, _, hk⟩
+  · simp at h
+  · have h3 : (3 : ℕ) = 2^k := by simpa using hk
+    rcases k with _ | _ | k
+    · omega
+    · omega
+    · rw [pow_succ, pow_succ] at h3; omega
+
+/-- The empty vector: every transform returns it unchanged; `unscale` panics (inverse of zero). -/
+theorem empty_vector :
+    ntt bOps primitiveRoot #[] = some #[] ∧ intt bOps primitiveRoot #[] = some #[] ∧
+    nttNoswap bOps primitiveRoot #[] = some #[] ∧ inttNoswap bOps primitiveRoot #[] = some #[] ∧
+    bitreverseOrder (#[] : Array Nat) = some #[] ∧ unscale bOps #[] = none := by
+  refine ⟨by decide +kernel, by decide +kernel, by decide +kernel, by decide +kernel, by decide +kernel, by decide +kernel⟩
+
+/-! ## the instances the driver runs: base field (canonical values) and extension field (triples) -/
+
+/-- **Base field: `ntt` is the DFT in `ZMod P` at the powers of the tabulated root**, for every `L ≤ 31` and every
+    vector of length `2^L`. -/
+theorem ntt_b_is_dft (L : Nat) (hL : L ≤ 31) (x : Array Nat) (hx : x.size = 2^L) :
+    ∃ r y, primitiveRoot (2^L) = some r ∧ ntt bOps primitiveRoot x = some y ∧ y.size = 2^L ∧
+      ∀ i, i < 2^L → zvec y i = dft (2^L) ((r : ℕ) : ZMod P) (zvec x) i :=
+  ntt_b_eq_dft L hL x hx
+example : ntt bOps primitiveRoot #[1, 4, 0, 0] =
+    some #[5, 1125899906842625, 18446744069414584318, 18445618169507741698] := by decide +kernel
+
+/-- Base field: `intt` is `n⁻¹ ·` DFT at the powers of the inverse root. -/
+theorem intt_b_is_inverse_dft (L : Nat) (hL : L ≤ 31) (x : Array Nat) (hx : x.size = 2^L) :
+    ∃ r y, primitiveRoot (2^L) = some r ∧ intt bOps primitiveRoot x = some y ∧ y.size = 2^L ∧
+      ∀ i, i < 2^L → zvec y i = ((2^L : ℕ) : ZMod P)⁻¹ * dft (2^L) (((r : ℕ) : ZMod P)⁻¹) (zvec x) i :=
+  intt_b_eq_dft L hL x hx
+example : intt bOps primitiveRoot #[5, 1125899906842625, 18446744069414584318, 18445618169507741698]
+    = some #[1, 4, 0, 0] := by decide +kernel
+
+/-- Base field: `intt (ntt x) = x` and `ntt (intt x) = x` as field elements. -/
+theorem intt_ntt_b_roundtrip (L : Nat) (hL : L ≤ 31) (x : Array Nat) (hx : x.size = 2^L) :
+    (∃ y z, ntt bOps primitiveRoot x = some y ∧ intt bOps primitiveRoot y = some z ∧ z.size = x.size ∧
+      ∀ i, zvec z i = zvec x i) ∧
+    (∃ y z, intt bOps primitiveRoot x = some y ∧ ntt bOps primitiveRoot y = some z ∧ z.size = x.size ∧
+      ∀ i, zvec z i = zvec x i) :=
+  ⟨intt_ntt_b L hL x hx, ntt_intt_b L hL x hx⟩
+example : (#[7, 0, 3, 9] : Array Nat).size = 2^2 := by decide
+
+/-- Base field: `ntt_noswap` is the DFT in bit-reversed order, `intt_noswap ∘ ntt_noswap = n·id`, and
+    `intt = unscale ∘ intt_noswap ∘ bitreverse_order`. -/
+theorem noswap_b (L : Nat) (hL : L ≤ 31) (x : Array Nat) (hx : x.size = 2^L) :
+    (∃ r y, primitiveRoot (2^L) = some r ∧ nttNoswap bOps primitiveRoot x = some y ∧ y.size = 2^L ∧
+      ∀ i, i < 2^L → zvec y i = dft (2^L) ((r : ℕ) : ZMod P) (zvec x) (bitrev L i)) ∧
+    (∃ y z, nttNoswap bOps primitiveRoot x = some y ∧ inttNoswap bOps primitiveRoot y = some z ∧ z.size = 2^L ∧
+      ∀ i, i < 2^L → zvec z i = ((2^L : ℕ) : ZMod P) * zvec x i) ∧
+    (∃ b c, bitreverseOrder x = some b ∧ inttNoswap bOps primitiveRoot b = some c ∧
+      intt bOps primitiveRoot x = unscale bOps c) :=
+  ⟨nttNoswap_b_eq_dft L (by omega) x hx, inttNoswap_nttNoswap_b L (by omega) x hx, intt_via_noswap_b L hL x hx⟩
+example : nttNoswap bOps primitiveRoot #[1, 4, 0, 0] =
+    some #[5, 18446744069414584318, 1125899906842625, 18445618169507741698] := by decide +kernel
+
+/-- **Extension field: every transform acts coordinatewise** (all twiddles are base-field scalars), so the four
+    theorems above hold for each of the three coordinate vectors of an extension-field vector. -/
+theorem x_transforms_coordinatewise (k : Nat) (x : Array X3) :
+    (ntt xOps primitiveRoot x).map (Array.map (coord k)) = ntt bOps primitiveRoot (x.map (coord k)) ∧
+    (intt xOps primitiveRoot x).map (Array.map (coord k)) = intt bOps primitiveRoot (x.map (coord k)) ∧
+    (nttNoswap xOps primitiveRoot x).map (Array.map (coord k)) = nttNoswap bOps primitiveRoot (x.map (coord k)) ∧
+    (inttNoswap xOps primitiveRoot x).map (Array.map (coord k)) = inttNoswap bOps primitiveRoot (x.map (coord k)) :=
+  x_coordinatewise k x
+example : coord 0 (1, 2, 3) = 1 ∧ coord 1 (1, 2, 3) = 2 ∧ coord 2 (1, 2, 3) = 3 := by decide
 
 end TF.C06
